@@ -277,6 +277,133 @@ func checkEnumAttributes(sp *Spec, b *Built, kinds map[string]int) (fails []prop
 	return fails
 }
 
+var editNames = []string{"clear-one-group", "remove-one-child", "clear-one-group-then-remove-child", "clear-all-groups"}
+
+// editAndRejudge applies one kind of public-API edit to every multiplexer that holds signals
+// (clear one non-empty group / remove one child / both / clear all groups), then exports the
+// edited network, evaluates the property clauses against its getters and calls String() on the
+// network, every message and every edited multiplexer, each under recover().
+func editAndRejudge(b *Built, r *rng, edit int, kinds map[string]int) (fails []propFail) {
+	name := editNames[edit]
+	edited := []*a.MultiplexerSignal{}
+	shape := "single-group-only"
+	func() {
+		defer func() {
+			if rec := recover(); rec != nil {
+				fails = append(fails, propFail{"after-edit-" + name + "-edit-panic", fmt.Sprintf("the edit itself panicked: %v", rec)})
+			}
+		}()
+		for _, s := range b.Sigs {
+			if s.Kind() != a.SignalKindMultiplexer || s.ParentMessage() == nil {
+				continue
+			}
+			mx, err := s.ToMultiplexer()
+			if err != nil {
+				continue
+			}
+			var nonEmpty []int
+			var children []a.Signal
+			inGroups := map[a.EntityID]int{}
+			for g := 0; g < mx.GroupCount(); g++ {
+				grp := mx.GetSignalGroup(g)
+				if len(grp) > 0 {
+					nonEmpty = append(nonEmpty, g)
+				}
+				for _, c := range grp {
+					if inGroups[c.EntityID()] == 0 {
+						children = append(children, c)
+					}
+					inGroups[c.EntityID()]++
+				}
+			}
+			if len(nonEmpty) == 0 {
+				continue
+			}
+			if edit == 0 || edit == 2 {
+				g := nonEmpty[r.below(len(nonEmpty))]
+				for _, c := range mx.GetSignalGroup(g) {
+					if n := inGroups[c.EntityID()]; n > 1 && n < mx.GroupCount() {
+						shape = "multi-group-child"
+					} else if n == mx.GroupCount() && n > 1 && shape != "multi-group-child" {
+						shape = "fixed-child"
+					}
+				}
+				if err := mx.ClearSignalGroup(g); err != nil {
+					fails = append(fails, propFail{"after-edit-" + name + "-edit-error", "ClearSignalGroup of an existing group: " + err.Error()})
+				}
+			}
+			if edit == 2 { // the children still held after the group was cleared
+				children = children[:0]
+				seen := map[a.EntityID]bool{}
+				for g := 0; g < mx.GroupCount(); g++ {
+					for _, c := range mx.GetSignalGroup(g) {
+						if !seen[c.EntityID()] {
+							seen[c.EntityID()] = true
+							children = append(children, c)
+						}
+					}
+				}
+			}
+			if (edit == 1 || edit == 2) && len(children) > 0 {
+				if err := mx.RemoveSignal(children[r.below(len(children))].EntityID()); err != nil {
+					fails = append(fails, propFail{"after-edit-" + name + "-edit-error", "RemoveSignal of a held signal: " + err.Error()})
+				}
+			}
+			if edit == 3 {
+				mx.ClearAllSignalGroups()
+			}
+			edited = append(edited, mx)
+		}
+	}()
+	if len(edited) == 0 {
+		kinds["after-edit-nothing-to-edit"]++
+		return fails
+	}
+	kinds["after-edit-"+name]++
+	if edit == 0 || edit == 2 {
+		kinds["after-edit-"+name+"-"+shape]++
+	}
+	pre := "after-edit-" + name + "-"
+	text, xerr, pan := exportMD(b.Net)
+	switch {
+	case pan != nil:
+		fails = append(fails, propFail{pre + "export-panic", fmt.Sprintf("ExportToMarkdown of the edited network panicked: %v", pan)})
+	case xerr != nil:
+		fails = append(fails, propFail{pre + "export-error", "ExportToMarkdown of the edited network returned: " + xerr.Error()})
+	default:
+		func() {
+			defer func() {
+				if rec := recover(); rec != nil {
+					fails = append(fails, propFail{pre + "getter-panic", fmt.Sprintf("reading the edited network through its getters panicked: %v", rec)})
+				}
+			}()
+			ignore, md := map[string]int{}, 0
+			for _, x := range checkProperty(b.Net, parseMarkdown(text), ignore, &md) {
+				fails = append(fails, propFail{pre + x.Kind, "export of the edited network: " + x.Detail})
+			}
+		}()
+	}
+	try := func(kind string, f func() string) {
+		defer func() {
+			if rec := recover(); rec != nil {
+				fails = append(fails, propFail{pre + "string-panic-" + kind, fmt.Sprintf("%s.String() of the edited network panicked: %v", kind, rec)})
+			}
+		}()
+		if f() == "" {
+			fails = append(fails, propFail{pre + "string-empty-" + kind, kind + ".String() returned the empty string"})
+		}
+		kinds["after-edit-string-"+kind]++
+	}
+	try("network", b.Net.String)
+	for _, m := range b.Msgs {
+		try("message", m.String)
+	}
+	for _, mx := range edited {
+		try("signal-multiplexer", mx.String)
+	}
+	return fails
+}
+
 func exportMD(net *a.Network) (text string, err error, panicked any) {
 	defer func() {
 		if r := recover(); r != nil {
@@ -418,12 +545,15 @@ func main() {
 				nontrivial++
 			}
 		}
-		for _, x := range cf {
-			if old, ok := failSize[x.Kind]; !ok || len(dump) < old {
-				failSize[x.Kind] = len(dump)
-				fails[x.Kind] = fmt.Sprintf("%d ## %s", i, x.Detail)
+		record := func(cf []propFail) {
+			for _, x := range cf {
+				if old, ok := failSize[x.Kind]; !ok || len(dump) < old {
+					failSize[x.Kind] = len(dump)
+					fails[x.Kind] = fmt.Sprintf("%d ## %s", i, x.Detail)
+				}
 			}
 		}
+		record(cf)
 		e := 0
 		if xerr != nil {
 			e = 1
@@ -436,6 +566,14 @@ func main() {
 		}
 		if len(samples) < 2 && maxDepth >= 1 {
 			samples = append(samples, fmt.Sprintf("case %d: %s", i, strings.ReplaceAll(dump, "\n", " ; ")))
+		}
+		// the network stays well-formed under the public editing API: after everything above has
+		// rendered (and read) it, one kind of edit is applied to every multiplexer and the edited
+		// network is exported, judged and rendered again
+		if pan == nil {
+			ef := editAndRejudge(b, &rng{s: seed*1000003 + uint64(i) ^ 0x9e3779b97f4a7c15}, i%4, kinds)
+			record(ef)
+			cf = append(cf, ef...)
 		}
 		if only >= 0 {
 			fmt.Printf("---- case %d: markdown (err=%v)\n%s\n---- model input\n%s", i, xerr, text, dump)
